@@ -45,8 +45,10 @@ def reg(pid, **kw):
 
 reg("C01",
     gen=lambda seed, tier: (P.gen_damage_programs(G.Rng(seed), N(tier, 60, 600), big=N(tier, 0.02, 0.05)) +
-                            P.gen_extraction_programs(G.Rng(seed + 1001), N(tier, 30, 300))),
-    monitors=[lambda rr: P.mon_extraction(rr) if "steps" in rr.prog.tags else P.mon_checked_retrieval(rr)],
+                            P.gen_extraction_programs(G.Rng(seed + 1001), N(tier, 30, 300)) +
+                            P.gen_symlink_chain_programs()),
+    monitors=[lambda rr: (P.mon_symlink_chain(rr) if "chain" in rr.prog.tags else
+                          P.mon_extraction(rr) if "steps" in rr.prog.tags else P.mon_checked_retrieval(rr))],
     nontrivial=lambda rr: has(rr, ("read", "read_hash", "rcheck", "copy", "copy_hash", "hard_link", "hard_link_hash"),
                               ("err integrity", "ok")),
     rule="programs: two entries written (random algorithm, size incl. mmap/buffer edges), one damage of the victim's "
@@ -56,8 +58,10 @@ reg("C01",
 
 reg("C18",
     gen=lambda seed, tier: (P.gen_damage_programs(G.Rng(seed + 18), N(tier, 60, 600), big=N(tier, 0.02, 0.05)) +
-                            P.gen_extraction_programs(G.Rng(seed + 181), N(tier, 60, 600))),
-    monitors=[lambda rr: P.mon_extraction(rr) if "steps" in rr.prog.tags else P.mon_checked_retrieval(rr)],
+                            P.gen_extraction_programs(G.Rng(seed + 181), N(tier, 60, 600)) +
+                            P.gen_symlink_chain_programs()),
+    monitors=[lambda rr: (P.mon_symlink_chain(rr) if "chain" in rr.prog.tags else
+                          P.mon_extraction(rr) if "steps" in rr.prog.tags else P.mon_checked_retrieval(rr))],
     nontrivial=lambda rr: has(rr, ("copy", "copy_hash", "hard_link", "hard_link_hash", "reflink"), ()),
     rule="as C01, judged on the extraction calls and the destination file afterwards; plus extraction SEQUENCES over "
          "pristine content that reuse destinations (the same path twice, a path that already is a hard link of the content, "
@@ -131,11 +135,13 @@ reg("C09",
                             P.gen_shard_programs(G.Rng(seed + 91), N(tier, 8, 40)) +
                             P.gen_shared_removal_programs(G.Rng(seed + 94), N(tier, 20, 200)) +
                             P.gen_key_matrix_programs(G.Rng(seed + 95)) +
-                            P.gen_multihash_removal_programs(G.Rng(seed + 96))),
+                            P.gen_multihash_removal_programs(G.Rng(seed + 96)) +
+                            P.gen_linked_removal_programs()),
     extra=lambda seed, tier, flavours: LG.leg_skeleton(
         P.gen_shard_programs(G.Rng(seed + 92), N(tier, 4, 16)) +
         P.gen_history_programs(G.Rng(seed + 93), N(tier, 3, 12), maxlen=10, full=True), flavours[0]),
     monitors=[lambda rr: (P.mon_shared_removal(rr) if "removals" in rr.prog.tags else
+                          P.mon_linked_removal(rr) if "linkrm" in rr.prog.tags else
                           P.mon_expect_reads(rr) if "expect_reads" in rr.prog.tags else P.mon_history(rr))],
     nontrivial=lambda rr: has(rr, ("remove", "remove_hash", "remove_fully", "clear"), ("ok",)),
     rule="as C05 plus remove_hash, remove_fully and clear; plus shared-content removal programs (see C10); "
@@ -236,8 +242,11 @@ reg("C17",
          "looks up, reads and lists it")
 
 reg("C19",
-    gen=lambda seed, tier: P.gen_linkto_programs(G.Rng(seed + 19), N(tier, 100, 1000)) + P.gen_link_dotdot_programs(),
-    monitors=[lambda rr: P.mon_link_dotdot(rr) if "dotdot" in rr.prog.tags else P.mon_linkto(rr)],
+    gen=lambda seed, tier: (P.gen_linkto_programs(G.Rng(seed + 19), N(tier, 100, 1000)) + P.gen_link_dotdot_programs() +
+                            P.gen_linked_removal_programs() + P.gen_symlink_chain_programs()),
+    monitors=[lambda rr: (P.mon_link_dotdot(rr) if "dotdot" in rr.prog.tags else
+                          P.mon_linked_removal(rr) if "linkrm" in rr.prog.tags else
+                          P.mon_symlink_chain(rr) if "chain" in rr.prog.tags else P.mon_linkto(rr))],
     nontrivial=lambda rr: has(rr, ("link_to", "link_to_hash", "lcommit"), ("ok",)),
     rule="programs: a target file (0 B .. 40 kB), link_to by absolute or relative path (one-shot, by address, partial "
          "reads before commit, wrong declared size / integrity, address already present as regular content, working directory "
@@ -248,8 +257,10 @@ reg("C15",
     gen=lambda seed, tier: (P.gen_confine_programs(G.Rng(seed + 15), N(tier, 40, 400)) +
                             P.gen_extraction_programs(G.Rng(seed + 153), N(tier, 30, 300)) +
                             P.gen_oddcache_programs() +
-                            [p for p in P.gen_key_matrix_programs(G.Rng(seed + 154)) if p.name.startswith("siblings")]),
+                            [p for p in P.gen_key_matrix_programs(G.Rng(seed + 154)) if p.name.startswith("siblings")] +
+                            P.gen_linked_removal_programs()),
     monitors=[lambda rr: (P.mon_oddcache(rr) if "oddcache" in rr.prog.tags else
+                          P.mon_linked_removal(rr) if "linkrm" in rr.prog.tags else
                           P.mon_history(rr) if rr.prog.name.startswith("siblings") else
                           P.mon_extraction(rr) if "steps" in rr.prog.tags else P.mon_confine(rr))],
     nontrivial=lambda rr: True,
